@@ -9,7 +9,11 @@ package endpoint
 
 import (
 	"crypto/sha512"
+	"io"
 	"math/big"
+
+	xchacha "golang.org/x/crypto/chacha20poly1305"
+	xhkdf "golang.org/x/crypto/hkdf"
 
 	"github.com/tadglines/go-pkgs/crypto/srp"
 
@@ -105,3 +109,24 @@ func rcM1(salt, A, B, K []byte) []byte {
 	Bn := new(big.Int).SetBytes(B).Bytes()
 	return rcHash(hng.Bytes(), rcHash([]byte("Pair-Setup")), salt, An, Bn, K)
 }
+
+func rcHKDF(secret []byte, salt, info string) []byte {
+	r := xhkdf.New(sha512.New, secret, []byte(salt), []byte(info))
+	k := make([]byte, 32)
+	io.ReadFull(r, k)
+	return k
+}
+
+func rcNonce(label string) []byte { return append(make([]byte, 4), []byte(label)...) }
+
+func rcSeal(key []byte, label string, pt []byte) []byte {
+	a, _ := xchacha.New(key)
+	return a.Seal(nil, rcNonce(label), pt, nil)
+}
+
+func rcOpen(key []byte, label string, ct []byte) ([]byte, bool) {
+	a, _ := xchacha.New(key)
+	pt, err := a.Open(nil, rcNonce(label), ct, nil)
+	return pt, err == nil
+}
+
